@@ -251,4 +251,106 @@ theorem hexRing_mem (k : Nat) (c : HexCell) (hc : c ∈ hexRing k) :
   · exact ⟨t, ht, Or.inr (Or.inr (Or.inr (Or.inr (Or.inl (by rw [← e]; refine Prod.ext (by first | rfl | (simp only; omega)) (Prod.ext (by first | rfl | (simp only; omega)) (by first | rfl | (simp only; omega))))))))⟩
   · exact ⟨t, ht, Or.inr (Or.inr (Or.inr (Or.inr (Or.inr (by rw [← e]; refine Prod.ext (by first | rfl | (simp only; omega)) (Prod.ext (by first | rfl | (simp only; omega)) (by first | rfl | (simp only; omega))))))))⟩
 
+
+/-- `hex_ring(k)` as six explicit sides -/
+theorem hexRing_eq (k : Nat) :
+    hexRing k =
+      (List.range k).map (fun (t : Nat) => ((-(k : Int) + t, (k : Int), -(t : Int)) : HexCell)) ++
+      (List.range k).map (fun (t : Nat) => (((t : Int), (k : Int) - t, -(k : Int)) : HexCell)) ++
+      (List.range k).map (fun (t : Nat) => (((k : Int), -(t : Int), -(k : Int) + t) : HexCell)) ++
+      (List.range k).map (fun (t : Nat) => (((k : Int) - t, -(k : Int), (t : Int)) : HexCell)) ++
+      (List.range k).map (fun (t : Nat) => ((-(t : Int), -(k : Int) + t, (k : Int)) : HexCell)) ++
+      (List.range k).map (fun (t : Nat) => ((-(k : Int), (t : Int), (k : Int) - t) : HexCell)) := by
+  have d0 : Gen.hexDirections.getD 0 (0, 0, 0) = (1, 0, -1) := rfl
+  have d1 : Gen.hexDirections.getD 1 (0, 0, 0) = (1, -1, 0) := rfl
+  have d2 : Gen.hexDirections.getD 2 (0, 0, 0) = (0, -1, 1) := rfl
+  have d3 : Gen.hexDirections.getD 3 (0, 0, 0) = (-1, 0, 1) := rfl
+  have d4 : Gen.hexDirections.getD 4 (0, 0, 0) = (-1, 1, 0) := rfl
+  have d5 : Gen.hexDirections.getD 5 (0, 0, 0) = (0, 1, -1) := rfl
+  unfold hexRing
+  simp only [walkSides, walkSide_spec, d0, d1, d2, d3, d4, d5, Gen.hexRingStart, hexStep, List.nil_append,
+    Int.mul_one, Int.mul_zero, Int.mul_neg, Int.add_zero, Int.zero_add]
+  congr 1
+  · congr 1
+    · congr 1
+      · congr 1
+        · congr 1
+          apply List.map_congr_left; intro t _
+          exact Prod.ext (by first | rfl | (simp only; omega)) (Prod.ext (by first | rfl | (simp only; omega)) (by first | rfl | (simp only; omega)))
+        · apply List.map_congr_left; intro t _
+          exact Prod.ext (by first | rfl | (simp only; omega)) (Prod.ext (by first | rfl | (simp only; omega)) (by first | rfl | (simp only; omega)))
+      · apply List.map_congr_left; intro t _
+        exact Prod.ext (by first | rfl | (simp only; omega)) (Prod.ext (by first | rfl | (simp only; omega)) (by first | rfl | (simp only; omega)))
+    · apply List.map_congr_left; intro t _
+      exact Prod.ext (by first | rfl | (simp only; omega)) (Prod.ext (by first | rfl | (simp only; omega)) (by first | rfl | (simp only; omega)))
+  · apply List.map_congr_left; intro t _
+    exact Prod.ext (by first | rfl | (simp only; omega)) (Prod.ext (by first | rfl | (simp only; omega)) (by first | rfl | (simp only; omega)))
+
+theorem hexRing_nodup (k : Nat) : (hexRing k).Nodup := by
+  rw [hexRing_eq]
+  have inj : ∀ (f : Nat → HexCell), (∀ a b : Nat, f a = f b → a = b) → ((List.range k).map f).Nodup := by
+    intro f hf
+    rw [List.Nodup, List.pairwise_map]
+    exact List.Pairwise.imp (fun hab h => hab (hf _ _ h)) (List.nodup_range (n := k))
+  simp only [List.nodup_append, List.mem_append, List.mem_map, List.mem_range]
+  refine ⟨⟨⟨⟨⟨inj _ ?_, inj _ ?_, ?_⟩, inj _ ?_, ?_⟩, inj _ ?_, ?_⟩, inj _ ?_, ?_⟩, inj _ ?_, ?_⟩
+  · intro a b h; simp only [Prod.mk.injEq] at h; omega
+  · intro a b h; simp only [Prod.mk.injEq] at h; omega
+  · intro a ha b ⟨t', ht', e'⟩ hab
+    rcases ha with ⟨t, ht, e⟩
+    all_goals (subst e; subst e'; simp only [Prod.mk.injEq] at hab; omega)
+  · intro a b h; simp only [Prod.mk.injEq] at h; omega
+  · intro a ha b ⟨t', ht', e'⟩ hab
+    rcases ha with ⟨t, ht, e⟩ | ⟨t, ht, e⟩
+    all_goals (subst e; subst e'; simp only [Prod.mk.injEq] at hab; omega)
+  · intro a b h; simp only [Prod.mk.injEq] at h; omega
+  · intro a ha b ⟨t', ht', e'⟩ hab
+    rcases ha with (⟨t, ht, e⟩ | ⟨t, ht, e⟩) | ⟨t, ht, e⟩
+    all_goals (subst e; subst e'; simp only [Prod.mk.injEq] at hab; omega)
+  · intro a b h; simp only [Prod.mk.injEq] at h; omega
+  · intro a ha b ⟨t', ht', e'⟩ hab
+    rcases ha with ((⟨t, ht, e⟩ | ⟨t, ht, e⟩) | ⟨t, ht, e⟩) | ⟨t, ht, e⟩
+    all_goals (subst e; subst e'; simp only [Prod.mk.injEq] at hab; omega)
+  · intro a b h; simp only [Prod.mk.injEq] at h; omega
+  · intro a ha b ⟨t', ht', e'⟩ hab
+    rcases ha with (((⟨t, ht, e⟩ | ⟨t, ht, e⟩) | ⟨t, ht, e⟩) | ⟨t, ht, e⟩) | ⟨t, ht, e⟩
+    all_goals (subst e; subst e'; simp only [Prod.mk.injEq] at hab; omega)
+
+
+theorem hexRing_bounds (k : Nat) (c : HexCell) (hc : c ∈ hexRing k) :
+    (-(k : Int) ≤ c.1 ∧ c.1 ≤ k) ∧ (-(k : Int) ≤ c.2.1 ∧ c.2.1 ≤ k) ∧ (-(k : Int) ≤ c.2.2 ∧ c.2.2 ≤ k) ∧
+    (c.1 = k ∨ c.1 = -k ∨ c.2.1 = k ∨ c.2.1 = -k ∨ c.2.2 = k ∨ c.2.2 = -k) := by
+  obtain ⟨t, ht, h⟩ := hexRing_mem k c hc
+  rcases h with rfl | rfl | rfl | rfl | rfl | rfl <;>
+    exact ⟨⟨by simp only; omega, by simp only; omega⟩, ⟨by simp only; omega, by simp only; omega⟩,
+      ⟨by simp only; omega, by simp only; omega⟩, by simp⟩
+
+theorem segCells_bounds (k : Nat) (c : HexCell) (hc : c ∈ segCells k) :
+    (-(k : Int) ≤ c.1 ∧ c.1 ≤ k) ∧ (-(k : Int) ≤ c.2.1 ∧ c.2.1 ≤ k) ∧ (-(k : Int) ≤ c.2.2 ∧ c.2.2 ≤ k) := by
+  induction k with
+  | zero =>
+    simp only [segCells, List.mem_singleton] at hc
+    subst hc; simp
+  | succ k ih =>
+    simp only [segCells, List.mem_append] at hc
+    rcases hc with h | h
+    · have := ih h
+      refine ⟨⟨by omega, by omega⟩, ⟨by omega, by omega⟩, ⟨by omega, by omega⟩⟩
+    · have := hexRing_bounds (k + 1) c h
+      exact ⟨this.1, this.2.1, this.2.2.1⟩
+
+theorem segCells_nodup (k : Nat) : (segCells k).Nodup := by
+  induction k with
+  | zero => simp [segCells]
+  | succ k ih =>
+    simp only [segCells]
+    rw [List.nodup_append]
+    refine ⟨ih, hexRing_nodup (k + 1), ?_⟩
+    intro a ha b hb hab
+    subst hab
+    have h1 := segCells_bounds k a ha
+    have h2 := (hexRing_bounds (k + 1) a hb).2.2.2
+    push_cast at h2
+    omega
+
 end Lentil
